@@ -532,10 +532,159 @@ func detailedErrorDupTypes(rep *concReport) {
 		"prefix=%v mentions-duplicate-names=%v", ok, strings.Contains(d, "more than one type"))
 }
 
+// concSingletonSibling: one base provider annotated two ways (Memoize / Singleton: the copies share the provider id).
+// The memoized copy is used first, with two inputs; the Singleton copy must still run once for the process,
+// whatever inputs its chains offer, and every chain sees that one result.
+func concSingletonSibling(rep *concReport) {
+	var runs int64
+	base := nject.Provide("sibling-base", func(a T0) T2 {
+		n := atomic.AddInt64(&runs, 1)
+		return T2{Tag: a.Tag*1000 + uint64(n)}
+	})
+	memo := nject.Memoize(base)
+	single := nject.Singleton(base)
+	bindRun := func(name string, in uint64, p any) (uint64, error) {
+		var inv func() T2
+		if err := nject.Sequence(name, T0{Tag: in}, p, func(x T2) T2 { return x }).Bind(&inv, nil); err != nil {
+			return 0, err
+		}
+		return inv().Tag, nil
+	}
+	var obs []uint64
+	for i, spec := range []struct {
+		in uint64
+		p  any
+	}{{1, memo}, {2, memo}, {1, memo}, {3, single}, {4, single}, {5, single}} {
+		v, err := bindRun(fmt.Sprintf("SB%d", i), spec.in, spec.p)
+		if err != nil {
+			rep.add("singleton-sibling", false, "bind: %v", err)
+			return
+		}
+		obs = append(obs, v)
+	}
+	ok := obs[0] == obs[2] && obs[0] != obs[1] && obs[3] == obs[4] && obs[4] == obs[5] && atomic.LoadInt64(&runs) == 3
+	rep.add("singleton-sibling", ok, "observed=%v runs=%d (want: memo once per input = 2, singleton once = 1)", obs, runs)
+}
+
+// concStaticOnceDebugging: like static-init, with a consumer of *Debugging in the chain (the Debugging value
+// is built by binding the chain again, without effect on the chain that is in use)
+func concStaticOnceDebugging(rep *concReport, goroutines int) {
+	var runs int64
+	static := nject.Cacheable(func(a T0) T3 {
+		n := atomic.AddInt64(&runs, 1)
+		return T3{Tag: a.Tag*10 + uint64(n)}
+	})
+	var inv func(T1) T3
+	var ini func(T0) T3
+	if err := nject.Sequence("ID", static, func(x T3, _ T1, d *nject.Debugging) T3 { _ = d.Trace; return x }).Bind(&inv, &ini); err != nil {
+		rep.add("static-init-debugging", false, "bind: %v", err)
+		return
+	}
+	first := ini(T0{Tag: 1}).Tag
+	ok := true
+	detail := ""
+	for g := 0; g < goroutines; g++ {
+		a := ini(T0{Tag: uint64(g + 2)}).Tag
+		b := inv(T1{Tag: uint64(g)}).Tag
+		if a != first || b != first {
+			ok = false
+			detail = fmt.Sprintf("call %d saw init=%d invoke=%d, the first init call returned %d", g, a, b, first)
+		}
+	}
+	if atomic.LoadInt64(&runs) != 1 {
+		ok = false
+	}
+	rep.add("static-init-debugging", ok, "static_runs=%d %s", runs, detail)
+}
+
+type nilNamer interface{ NilName() string }
+type nilAlpha struct{ X int }
+type nilBeta struct{ Y string }
+
+func (a *nilAlpha) NilName() string {
+	if a == nil {
+		return "nil-alpha"
+	}
+	return "alpha"
+}
+func (b *nilBeta) NilName() string {
+	if b == nil {
+		return "nil-beta"
+	}
+	return "beta"
+}
+
+// memoNilPointers: nil pointers of two concrete types reaching one memoized interface parameter are two inputs
+func memoNilPointers(rep *concReport) {
+	calls := map[string]int{}
+	var mu sync.Mutex
+	memo := nject.Memoize(func(n nilNamer) T1 {
+		mu.Lock()
+		calls[n.NilName()]++
+		mu.Unlock()
+		return T1{Tag: uint64(len(n.NilName()))*100 + uint64(n.NilName()[4])}
+	})
+	run := func(name string, src any, want string) (uint64, error) {
+		var inv func() T1
+		if err := nject.Sequence(name, src, memo, func(x T1) T1 { return x }).Bind(&inv, nil); err != nil {
+			return 0, err
+		}
+		return inv().Tag, nil
+	}
+	a1, e1 := run("NA", nject.Cacheable(nject.Loose[nilNamer](func() *nilAlpha { return nil })), "nil-alpha")
+	b1, e2 := run("NB", nject.Cacheable(nject.Loose[nilNamer](func() *nilBeta { return nil })), "nil-beta")
+	a2, e3 := run("NA2", nject.Cacheable(nject.Loose[nilNamer](func() *nilAlpha { return nil })), "nil-alpha")
+	if e1 != nil || e2 != nil || e3 != nil {
+		rep.add("memo-nil-pointers", false, "bind: %v %v %v", e1, e2, e3)
+		return
+	}
+	wantA := uint64(len("nil-alpha"))*100 + uint64("nil-alpha"[4])
+	wantB := uint64(len("nil-beta"))*100 + uint64("nil-beta"[4])
+	ok := a1 == wantA && b1 == wantB && a2 == wantA && calls["nil-alpha"] == 1 && calls["nil-beta"] == 1
+	rep.add("memo-nil-pointers", ok, "alpha=%d beta=%d alpha-again=%d calls=%v (want one call per distinct input)", a1, b1, a2, calls)
+}
+
+// isolationRetryAfterPanic: a wrapper that recovers a panic raised below it and calls inner() again: the second
+// call must not see what the providers below wrote during the first
+func isolationRetryAfterPanic(rep *concReport) {
+	var seen []uint64
+	attempts := 0
+	wrapper := func(inner func() T3, _ T1) (r T3) {
+		func() {
+			defer func() { _ = recover() }()
+			r = inner()
+		}()
+		if attempts == 1 {
+			r = inner()
+		}
+		return r
+	}
+	observer := nject.Required(func(t T1) { seen = append(seen, t.Tag) })
+	reprovide := func(t T1) T1 { return T1{Tag: t.Tag + 1000} }
+	bomb := func(t T1) T2 {
+		attempts++
+		if attempts == 1 {
+			panic("first attempt fails")
+		}
+		return T2{Tag: t.Tag}
+	}
+	var inv func(T1) T3
+	if err := nject.Sequence("RP", wrapper, observer, reprovide, bomb, func(t T1, _ T2) T3 { return T3{Tag: t.Tag} }).Bind(&inv, nil); err != nil {
+		rep.add("isolation-retry-after-panic", false, "bind: %v", err)
+		return
+	}
+	got := inv(T1{Tag: 7}).Tag
+	ok := got == 1007 && len(seen) == 2 && seen[0] == 7 && seen[1] == 7
+	rep.add("isolation-retry-after-panic", ok, "final got %d (want 1007), the provider above the re-provider saw %v (want [7 7])", got, seen)
+}
+
 func runConc(seed int64, rounds int) []string {
 	rep := &concReport{}
 	rng := rand.New(rand.NewSource(seed))
 	memoKeys(rep)
+	memoNilPointers(rep)
+	concSingletonSibling(rep)
+	isolationRetryAfterPanic(rep)
 	detailedErrorDupTypes(rep)
 	for r := 0; r < rounds; r++ {
 		g := 4 + rng.Intn(13)
@@ -543,6 +692,7 @@ func runConc(seed int64, rounds int) []string {
 		concSingleton(rep, g)
 		concStaticOnce(rep, g, false)
 		concStaticOnce(rep, g, true)
+		concStaticOnceDebugging(rep, g)
 		concIsolation(rep, g, 10+rng.Intn(40), false)
 		concIsolation(rep, 1+g/4, 5+rng.Intn(10), true)
 		concParallelNoArgs(rep, 1+g/4, 5+rng.Intn(10))
